@@ -1,7 +1,7 @@
 (* Properties_C11.v — C11 "regular-expression rewrites accept exactly the same language".
    Only statements closed by [exact]; see Proofs_Regex*.v.  Naming: _partial = holds under the stated guard,
    _refuted = the unguarded statement is false, with a concrete witness. *)
-From GC Require Import Base Model_Regex Model_RegexSimplify Proofs_Regex Proofs_RegexRules Proofs_RegexSimplify Proofs_RegexWalk.
+From GC Require Import Base Model_Regex Model_RegexSimplify Proofs_Regex Proofs_RegexRules Proofs_RegexSimplify Proofs_RegexWalk Proofs_RegexWalkS.
 
 (* observational equivalence gives the same FindStringSubmatchIndex vector on every subject *)
 Theorem C11_equiv_same_matches : forall a b n, req a b -> forall s, go_vec n (find a s) = go_vec n (find b s).
@@ -92,17 +92,69 @@ Theorem C11_norm_sound : forall e, req (norm e) e.
 Proof. exact (norm_sound). Qed.
 Print Assumptions C11_norm_sound.
 
-(* One pass of the CURRENT simplifier (after the fix commits), tree level, by induction over the walker:
-   for every tree of the capture-free, flag-free fragment (in_fragment: the state-free elaboration succeeds)
-   that avoids the guards (avoids_defects: decidable, syntactic, mirrors the walker), the emitted tree has the
-   same groups (none), is observationally equivalent (same FindStringSubmatchIndex on every subject) and stays
-   inside the domain in which the matcher model is Go's semantics (model_exact: every loop body consumes). *)
-Theorem C11_simplify_sound_partial : forall e, in_fragment e = true -> avoids_defects e = true ->
+(* One pass of the CURRENT simplifier (after the fix commits), tree level, by induction over the walker, carried
+   out against the full elaboration (flags in effect, next capture index, capture names are threaded):
+   for every tree that elaborates inside the domain in which the matcher model is Go's semantics (in_fragmentS =
+   model_exact: capture groups, named groups, flag groups (?i:..), flag-only groups (?i) included; every loop body
+   consumes) and avoids the guards (avoids_defectsS: decidable, syntactic, mirrors the walker: merged/folded
+   copies are one tree that declares no group and lets no flag escape, a merged atom always consumes, class-table
+   hits are not the recorded-defect entries, enumerated ranges have ASCII bounds, prefix/suffix factoring only in
+   its sound instances - longer alternative first, or `x|hx` with x not starting with h - and only in trees
+   without flag groups, the two literals' Values being the texts of their characters), the emitted tree declares
+   the same groups with the same numbers and names, is observationally equivalent (same FindStringSubmatchIndex
+   on every subject) and stays inside the exactness domain.
+   Full statement (no guard) is false: see the _refuted theorems below. *)
+Theorem C11_simplify_sound_partial : forall e, in_fragmentS e = true -> avoids_defectsS e = true ->
+  exists x y n names, den_top e = Some (x, n, names) /\ den_top (simp_ast e) = Some (y, n, names) /\ req y x /\
+              model_exact (simp_ast e) = true /\
+              forall subject, find_go (simp_ast e) subject = find_go e subject.
+Proof. exact simplify_sound_S. Qed.
+Print Assumptions C11_simplify_sound_partial.
+
+(* Any number of passes: each pass starts from a tree in the fragment, and the tree the next pass starts from means
+   what the previous pass emitted (decidable link: equal normal forms and group declarations, evaluated by the
+   kernel; whether Go's parser reads the emitted TEXT that way is the text-level question) *)
+Theorem C11_simplify_chain_sound_partial : forall rest t, chain_ok t rest = true ->
+  exists a b n names, den_top t = Some (a, n, names) /\ den_top (chain_final t rest) = Some (b, n, names) /\ req b a /\
+              model_exact (chain_final t rest) = true /\
+              forall subject, find_go (chain_final t rest) subject = find_go t subject.
+Proof. exact chain_sound. Qed.
+Print Assumptions C11_simplify_chain_sound_partial.
+
+(* The FINAL rewrite of the two-pass driver (t2 = the parser's tree of the first pass's text): the tree whose text
+   the checker prints is equivalent to the original pattern *)
+Theorem C11_simplify_final_sound_partial : forall t1 t2, final_ok t1 t2 = true ->
+  exists a b n names, den_top t1 = Some (a, n, names) /\ den_top (final_tree t1 t2) = Some (b, n, names) /\ req b a /\
+              model_exact (final_tree t1 t2) = true /\
+              forall subject, find_go (final_tree t1 t2) subject = find_go t1 subject.
+Proof. exact final_sound. Qed.
+Print Assumptions C11_simplify_final_sound_partial.
+
+(* how elaboration changes the state: no flag escapes an expression without a top-level flag-only group, and the
+   group counter and names move only where a capture group is declared *)
+Theorem C11_elaboration_state_law : forall e st x st', den e st = Some (x, st') ->
+  (leaks e = false -> d_fl st' = d_fl st) /\ (hasCapture e = false -> d_next st' = d_next st /\ d_names st' = d_names st).
+Proof. exact den_state. Qed.
+Print Assumptions C11_elaboration_state_law.
+
+Example C11_fragment_with_groups_satisfiable :
+  pass_ok ex_capture_factor = true /\ simp_text ex_capture_factor = "(foo?)(?P<n>a)x" /\
+  pass_ok ex_flag_group = true /\ simp_text ex_flag_group = "(?i:kb+)(c) {3}".
+Proof. exact examples_S. Qed.
+Print Assumptions C11_fragment_with_groups_satisfiable.
+
+Theorem C11_suffix_factoring_under_fold_refuted :
+  (simp_text t_suffix_fold = "(?i:a?aA)") /\ (differ t_suffix_fold (simp_ast t_suffix_fold) "aaa") /\ (avoids_defectsS t_suffix_fold = false).
+Proof. exact suffix_factoring_under_fold_refuted. Qed.
+Print Assumptions C11_suffix_factoring_under_fold_refuted.
+
+(* the earlier, narrower form (no capture group, no flag group, no factoring), state-free elaboration *)
+Theorem C11_simplify_sound_plain_partial : forall e, in_fragment e = true -> avoids_defects e = true ->
   exists x y, den_top e = Some (x, 0, []) /\ den_top (simp_ast e) = Some (y, 0, []) /\ req y x /\
               model_exact (simp_ast e) = true /\
               forall subject, find_go (simp_ast e) subject = find_go e subject.
 Proof. exact simplify_sound_fragment. Qed.
-Print Assumptions C11_simplify_sound_partial.
+Print Assumptions C11_simplify_sound_plain_partial.
 
 (* the dialect of the claim: the checker issues diagnostics only at call sites that compile the pattern in the
    Perl dialect; the tie compares the set of call kinds with diagnostics with [reacting_calls] on every run *)
